@@ -44,6 +44,11 @@ func C09(e *Env) {
 	freshRule(e, "R09.5", 1, "internal/cmd/runner")
 	sortSites(e, "R09.4")
 
+	patternsPassThrough(e, "R09.4")
+	nilVersusEmptyRule(e, "R09.6")
+	mergeUnconditionalRule(e, "R09.2b")
+	r.Rule("R09.6", "an empty list and an omitted key are not told apart: no input-model slice is compared with nil in the validators, compiler or resolvers", 1)
+	r.Rule("R09.2b", "every file decoded without error is merged: the Merge call is guarded only by error tests and loop conditions", 1)
 	r.NotCovered = append(r.NotCovered,
 		"byte identity of single-file vs split output as such (follows from the decided wiring plus associativity of the four combinators; not executed)",
 		"path-cleaning and glob semantics of path/filepath (trusted)",
